@@ -94,8 +94,9 @@ const maxFailsPerJob = 3
 // ---------------------------------------------------------------- worker: part A
 
 type refEntry struct {
-	o   *obs
-	err string
+	o        *obs
+	err      string
+	reported bool
 }
 
 func reference(c UDPCase, cache map[string]*refEntry) *refEntry {
@@ -158,6 +159,17 @@ func runUDPJob(cases []UDPCase) JobOut {
 		}
 		ref := reference(c, cache)
 		if ref.err != "" {
+			if strings.Contains(ref.err, "legitimate") && strings.Contains(ref.err, "not delivered") {
+				// without any foreign datagram the negotiated peer's own traffic does not get through: the
+				// binding to the negotiated peer is broken in the other direction (reported once per configuration)
+				if !ref.reported {
+					ref.reported = true
+					a.out.Evals++
+					a.out.Fails = append(a.out.Fails, Fail{Sig: c.sideName() + "/no-foreign-datagram/blocks-legitimate-traffic",
+						Detail: map[string]any{"part": "udp", "case": UDPCase{Side: c.Side, AnyPort: c.AnyPort, Auto: c.Auto, Phase: c.Phase, Timeouts: c.Timeouts, TwoSess: c.TwoSess, Silence: c.Silence}, "msg": ref.err}})
+				}
+				continue
+			}
 			a.out.Harness = append(a.out.Harness, c.refKey()+": "+ref.err)
 			continue
 		}
